@@ -6,7 +6,7 @@ package window
 pred slotOK(s, size) := s != nil && s.Start != nil && s.End != nil && *s.End == *s.Start + size
 
 func alignWindowStart
-  props C01 C08
+  props C01 C08 C02 C10
   option pure
   ensures nonpositive-size: windowSize <= 0 ==> result == timestamp
   ensures below: windowSize > 0 ==> result <= timestamp
@@ -14,7 +14,7 @@ func alignWindowStart
   ensures aligned: windowSize > 0 ==> divides(windowSize, result)
 
 func (*TumblingWindow).createSlot
-  props C01
+  props C01 C02
   requires tw.size > 0
   ensures fresh: fresh(result)
   ensures shape: slotOK(result, tw.size)
@@ -22,13 +22,13 @@ func (*TumblingWindow).createSlot
   ensures aligned: divides(tw.size, *result.Start)
 
 func (*TumblingWindow).createSlotFromStart
-  props C01
+  props C01 C02
   ensures fresh: fresh(result)
   ensures shape: slotOK(result, tw.size)
   ensures start: *result.Start == start
 
 func (*TumblingWindow).NextSlot
-  props C01
+  props C01 C02
   held tw.mu
   requires tw.currentSlot != nil ==> tw.currentSlot.End != nil
   ensures nil: tw.currentSlot == nil ==> result == nil
@@ -51,7 +51,7 @@ recfunc rowsIn((a (Array Int S_types.Row)) (n Int) (lo Int) (hi Int) (slot Int))
 recfunc rowsOut((a (Array Int S_types.Row)) (n Int) (lo Int) (hi Int)) Slice_S_types.Row := (ite (<= n 0) (mkSlice_S_types.Row ((as const (Array Int S_types.Row)) (mkS_types.Row (- 62135596800000000000) VNil 0)) 0 false) (let ((r (@rowsOut a (- n 1) lo hi)) (x (select a (- n 1)))) (ite (and (<= lo (S_types.Row.Timestamp x)) (< (S_types.Row.Timestamp x) hi)) r (mkSlice_S_types.Row (store (Slice_S_types.Row.arr r) (Slice_S_types.Row.len r) x) (+ (Slice_S_types.Row.len r) 1) false))))
 
 func (*TumblingWindow).extractWindowDataLocked
-  props C01
+  props C01 C02
   held tw.mu
   requires tw.currentSlot != nil ==> tw.currentSlot.Start != nil && tw.currentSlot.End != nil
   modifies tw.data
@@ -113,12 +113,12 @@ func (*Watermark).update
   ensures inv: wmInv(wm)
 
 func (*Watermark).GetCurrentWatermark
-  props C02
+  props C02 C01 C08 C10
   acquires wm.mu
   ensures result == wm.currentWatermark
 
 func (*Watermark).IsEventTimeLate
-  props C01 C02
+  props C01 C02 C08 C10
   acquires wm.mu
   ensures late-iff-below-watermark: result == (!zero(wm.currentWatermark) && eventTime < wm.currentWatermark)
 @*/
@@ -152,16 +152,16 @@ extern extractTimestamp
   option pure
 
 func (*TumblingWindow).getWindowKey
-  props C02
+  props C02 C01
   option pure
 
 func (*TumblingWindow).sendResult
-  props C01
+  props C01 C02
   modifies tw.sentCount, tw.droppedCount
   ensures true
 
 func (*TumblingWindow).extractLateUpdateDataLocked
-  props C02
+  props C02 C01
   held tw.mu
   requires slot != nil && slot.Start != nil && slot.End != nil
   requires forallv(k, "", dom(tw.triggeredWindows, k) ==> tw.triggeredWindows[k] != nil)
@@ -180,7 +180,7 @@ func (*TumblingWindow).extractLateUpdateDataLocked
   loop 3 invariant forall(k, 0, $i, windowInfo.snapshotData[k].Data == resultData[k].Data && windowInfo.snapshotData[k].Timestamp == resultData[k].Timestamp && windowInfo.snapshotData[k].Slot == slot)
 
 func (*TumblingWindow).handleLateData
-  props C02
+  props C02 C01
   held tw.mu
   requires twInv(tw) && twNoStranded(tw)
   modifies *
@@ -189,7 +189,7 @@ func (*TumblingWindow).handleLateData
   loop 1 invariant held(tw.mu) && wheld(tw.mu) && twInv(tw) && twNoStranded(tw)
 
 func (*TumblingWindow).closeExpiredWindows
-  props C02
+  props C02 C01
   held tw.mu
   requires twInv(tw)
   modifies tw.data, mapof(tw.triggeredWindows)
@@ -239,7 +239,7 @@ func (*TumblingWindow).Add
 
 /*@
 func NewWatermark
-  props C01 C02
+  props C01 C02 C08 C10
   ensures fresh: fresh(result)
   ensures inv: wmInv(result)
   ensures config: result.maxOutOfOrderness == maxOutOfOrderness && result.idleTimeout == idleTimeout
@@ -252,7 +252,7 @@ func NewTumblingWindow
   ensures size-positive: result1 == nil ==> result0.size > 0
 
 func (*TumblingWindow).SetCallback
-  props C01
+  props C01 C02
   acquires tw.mu
   modifies tw.callback
   ensures tw.callback == callback
@@ -263,7 +263,7 @@ func (*TumblingWindow).Reset
   ensures cleared: !tw.initialized && tw.currentSlot == nil && len(tw.data) == 0
 
 func (*TumblingWindow).Trigger
-  props C01
+  props C01 C02
   acquires tw.mu
   modifies *
   loop 1 invariant newData == rowsFrom(arr($s), $i, nextStart)
@@ -291,7 +291,7 @@ pred swOpenOK(sw) := forallv(k, "", dom(sw.triggeredWindows, k) ==> sw.triggered
   && forallv(k, "", dom(sw.triggeredWindows, k) ==> sw.triggeredWindows[k] != nil && slotOK(sw.triggeredWindows[k].slot, sw.size))
 
 func (*SlidingWindow).createSlot
-  props C08
+  props C08 C02
   requires sw.slide > 0
   ensures fresh: fresh(result)
   ensures shape: slotOK(result, sw.size)
@@ -299,13 +299,13 @@ func (*SlidingWindow).createSlot
   ensures not-after-event: *result.Start <= t && t < *result.Start + sw.slide
 
 func (*SlidingWindow).createSlotFromStart
-  props C08
+  props C08 C02
   ensures fresh: fresh(result)
   ensures shape: slotOK(result, sw.size)
   ensures start: *result.Start == start
 
 func (*SlidingWindow).NextSlot
-  props C08
+  props C08 C02
   held sw.mu
   requires sw.currentSlot != nil ==> sw.currentSlot.Start != nil && sw.currentSlot.End != nil
   ensures nil: sw.currentSlot == nil ==> result == nil
@@ -322,16 +322,16 @@ func (*SlidingWindow).dropLastRow
   ensures empty: len(old(sw.data)) == 0 ==> len(sw.data) == 0
 
 func (*SlidingWindow).getWindowKey
-  props C02
+  props C02 C08
   option pure
 
 func (*SlidingWindow).sendResult
-  props C08
+  props C08 C02
   modifies sw.sentCount, sw.droppedCount
   ensures true
 
 func (*SlidingWindow).extractWindowDataLocked
-  props C08
+  props C08 C02
   held sw.mu
   requires slot != nil ==> slot.Start != nil && slot.End != nil
   modifies sw.data
@@ -343,7 +343,7 @@ func (*SlidingWindow).extractWindowDataLocked
   loop 2 invariant newData == rowsFrom(arr($s), $i, nextWindowStart)
 
 func (*SlidingWindow).triggerSpecificWindowLocked
-  props C08
+  props C08 C02
   held sw.mu
   requires swInv(sw)
   requires slot != nil && slot.Start != nil && slot.End != nil
@@ -352,7 +352,7 @@ func (*SlidingWindow).triggerSpecificWindowLocked
   ensures inv: swInv(sw)
 
 func (*SlidingWindow).triggerLateUpdateLocked
-  props C02
+  props C02 C08
   held sw.mu
   requires swInv(sw) && slot != nil && slot.Start != nil && slot.End != nil
   modifies *
@@ -367,7 +367,7 @@ func (*SlidingWindow).triggerLateUpdateLocked
   loop 4 invariant windowInfo != nil && len(windowInfo.snapshotData) == len(resultData) && forall(k, 0, $i, windowInfo.snapshotData[k].Data == resultData[k].Data && windowInfo.snapshotData[k].Timestamp == resultData[k].Timestamp && windowInfo.snapshotData[k].Slot == slot) && $s == resultData
 
 func (*SlidingWindow).handleLateData
-  props C02
+  props C02 C08
   held sw.mu
   requires swInv(sw)
   modifies *
@@ -376,7 +376,7 @@ func (*SlidingWindow).handleLateData
   loop 1 invariant held(sw.mu) && wheld(sw.mu) && swInv(sw)
 
 func (*SlidingWindow).closeExpiredWindows
-  props C02
+  props C02 C08
   held sw.mu
   requires swInv(sw)
   modifies mapof(sw.triggeredWindows)
@@ -412,7 +412,7 @@ func (*SlidingWindow).Add
   loop 1 invariant held(sw.mu) && wheld(sw.mu) && swInv(sw)
 
 func (*SlidingWindow).SetCallback
-  props C08
+  props C08 C02
   acquires sw.mu
   modifies sw.callback
   ensures sw.callback == callback
@@ -446,7 +446,7 @@ lemma C08-membership-needs-only-later-rows
 
 /*@
 func (*SlidingWindow).Trigger
-  props C08
+  props C08 C02
   acquires sw.mu
   modifies *
   before Unlock event-time-noop: sw.config.TimeCharacteristic == "EventTime" ==> sw.data == old(sw.data) && sw.currentSlot == old(sw.currentSlot)
@@ -474,27 +474,27 @@ pred cwInv(cw) := cw.threshold >= 1 && cw.keyedBuffer != nil && cw.keyedCount !=
   && forallv(k, "", dom(cw.keyedCount, k) ==> dom(cw.keyedBuffer, k) && cw.keyedCount[k] == len(cw.keyedBuffer[k]))
 
 extern (*CountingWindow).getKey
-  props C09
+  props C09 C04
   option pure
 
 func (*CountingWindow).sendResult
-  props C09
+  props C09 C04
   modifies cw.sentCount, cw.droppedCount
   ensures true
 
 func (*CountingWindow).createSlot
-  props C09
+  props C09 C04
   ensures result == nil || fresh(result)
 
 func (*CountingWindow).SetCallback
-  props C09
+  props C09 C02
   modifies cw.callback
   ensures cw.callback == callback
 
 // ingest side: every row offered to a running window is handed to the window goroutine (or the window is shutting down);
 // no row is dropped for what it contains
 func (*CountingWindow).Add
-  props C09
+  props C09 C04
   option channel_events
   acquires cw.mu
   modifies ghost(sends), ghost(dones)
@@ -502,7 +502,7 @@ func (*CountingWindow).Add
   ensures a-stopped-window-takes-nothing: old(cw.stopped) ==> ghost(sends) == old(ghost(sends))
 
 func (*CountingWindow).Start$1
-  props C09
+  props C09 C04
   modifies *
   observe seen := Now
   before Unlock a-key-with-pending-rows-was-active-just-now: len(buf) < cw.threshold ==> dom(cw.lastActive, key) && cw.lastActive[key] == $seen
@@ -514,7 +514,7 @@ func (*CountingWindow).Start$1
   loop 2 invariant len(data) == cw.threshold && forall(j, 0, $i, data[j].Data == buf[j].Data && data[j].Timestamp == buf[j].Timestamp && data[j].Slot == slot) && forall(j, $i, cw.threshold, data[j].Data == buf[j].Data && data[j].Timestamp == buf[j].Timestamp)
 
 func (*CountingWindow).reapIdleKeys
-  props C09
+  props C09 C04
   acquires cw.mu
   modifies mapof(cw.keyedBuffer), mapof(cw.keyedCount), mapof(cw.lastActive)
   ensures only-idle-keys-reaped: forallv(k, "", old(dom(cw.keyedBuffer, k)) && !dom(cw.keyedBuffer, k) ==> old(dom(cw.lastActive, k)) && now - old(cw.lastActive[k]) > cw.countStateTTL)
@@ -525,13 +525,13 @@ func (*CountingWindow).reapIdleKeys
   loop 1 invariant forallv(k, "", dom(cw.lastActive, k) ==> old(dom(cw.lastActive, k)) && cw.lastActive[k] == old(cw.lastActive[k]))
 
 func (*CountingWindow).Reset
-  props C09
+  props C09 C04
   acquires cw.mu
   modifies cw.dataBuffer, cw.keyedBuffer, cw.keyedCount, cw.sentCount, cw.droppedCount
   ensures no-buffered-rows-survive: forallv(k, "", !dom(cw.keyedBuffer, k) && !dom(cw.keyedCount, k))
 
 func NewCountingWindow
-  props C09
+  props C09 C04
   modifies *
   ensures inv: result1 == nil ==> result0 != nil && cwInv(result0)
   ensures positive-threshold: result1 == nil ==> result0.threshold >= 1
@@ -546,22 +546,22 @@ pred gwInv(gw) := gw.groups != nil && forallv(k, "", dom(gw.groups, k) ==> gw.gr
 
 // ---- TRIGGER WHEN text: AND / OR / = are lowered only as whole words outside quotes and identifiers
 func isWordChar
-  props C17
+  props C17 C04 C12
   option pure
   ensures result <==> (c >= 97 && c <= 122) || (c >= 65 && c <= 90) || (c >= 48 && c <= 57) || c == 95
 
 func isOpChar
-  props C17
+  props C17 C04 C12
   option pure
   ensures result <==> c == 61 || c == 62 || c == 60 || c == 33
 
 func toLower
-  props C17
+  props C17 C04 C12
   option pure
   ensures result == ite(c >= 65 && c <= 90, c + 32, c)
 
 func hasWordAt
-  props C17
+  props C17 C04 C12
   option safety
   option pure
   requires i >= 0
@@ -571,51 +571,51 @@ func hasWordAt
   loop 1 decreases len(word) - j
 
 func normalizeTriggerPredicate
-  props C17
+  props C17 C04 C12
   option safety
   before WriteString logical-words-are-lowered-only-as-whole-words-outside-quotes-and-identifiers: ($arg1 == "&&" ==> inQuote == 0 && !isWordChar(prev) && hasWordAt(s, i, "and") && (i + 3 >= n || !isWordChar(s[i + 3]))) && ($arg1 == "||" ==> inQuote == 0 && !isWordChar(prev) && hasWordAt(s, i, "or") && (i + 2 >= n || !isWordChar(s[i + 2]))) && ($arg1 == "==" ==> inQuote == 0 && !isOpChar(prev))
   loop 1 invariant 0 <= i && i <= n && n == len(s)
   loop 1 decreases n - i
 
 func normalizeField
-  props C17
+  props C17 C04 C12
   option pure
 
 func (*GlobalWindow).findOutputSpec
-  props C17
+  props C17 C04 C12
   ensures found-spec-has-the-same-aggregate-and-column: result != -1 ==> 0 <= result && result < len(gw.outputSpecs) && gw.outputSpecs[result].aggType == aggType && normalizeField(gw.outputSpecs[result].inputField) == normalizeField(inputField)
   ensures first-match: result != -1 ==> forall(j, 0, result, !(gw.outputSpecs[j].aggType == aggType && normalizeField(gw.outputSpecs[j].inputField) == normalizeField(inputField)))
   ensures minus-one-means-no-match: result == -1 ==> forall(j, 0, len(gw.outputSpecs), !(gw.outputSpecs[j].aggType == aggType && normalizeField(gw.outputSpecs[j].inputField) == normalizeField(inputField)))
   loop 1 invariant forall(j, 0, $i, !(gw.outputSpecs[j].aggType == aggType && normalizeField(gw.outputSpecs[j].inputField) == normalizeField(inputField)))
 
 extern (*GlobalWindow).getKeyAndValues
-  props C17
+  props C17 C04 C12
   option pure
 
 func lookupFieldValue
-  props C17
+  props C17 C04 C12
   option pure
   ensures bare-column-direct-lookup: true
 
 func toAggregateValue
-  props C17
+  props C17 C04 C12
   option pure
   ensures non-null-stays-non-null: v != nil ==> result != nil
 
 func feedAggs
-  props C17
+  props C17 C04 C12
   modifies pkgheaps(functions)
   before Add null-or-missing-input-is-never-fed: $arg1 != nil
   before Add only-count-star-counts-rows-every-other-aggregate-is-fed-the-rows-own-value: (spec.inputField == "*" ==> $arg1 == boxof(1, int)) && (spec.inputField != "*" ==> second(lookupFieldValue(data, spec.inputField)) && lookupFieldValue(data, spec.inputField) != nil && $arg1 == toAggregateValue(lookupFieldValue(data, spec.inputField)))
 
 func feedTriggerAggs
-  props C17
+  props C17 C04 C12
   modifies pkgheaps(functions)
   before Add null-or-missing-input-is-never-fed: $arg1 != nil
   before Add only-count-star-counts-rows-every-other-aggregate-is-fed-the-rows-own-value: (spec.inputField == "*" ==> $arg1 == boxof(1, int)) && (spec.inputField != "*" ==> second(lookupFieldValue(data, spec.inputField)) && lookupFieldValue(data, spec.inputField) != nil && $arg1 == toAggregateValue(lookupFieldValue(data, spec.inputField)))
 
 func newGroupState
-  props C17
+  props C17 C04 C12
   modifies pkgheaps(functions)
   ensures starts-from-empty: fresh(result) && !result.hasData && fresh(result.keyValues) && fresh(result.outputAggs) && fresh(result.triggerAggs) && result.key == key
   loop 1 invariant fresh(gs) && fresh(gs.keyValues) && fresh(gs.outputAggs) && fresh(gs.triggerAggs) && !gs.hasData && gs.key == key
@@ -623,21 +623,21 @@ func newGroupState
   loop 3 invariant fresh(gs) && fresh(gs.keyValues) && fresh(gs.outputAggs) && fresh(gs.triggerAggs) && !gs.hasData && gs.key == key
 
 func (*GlobalWindow).shouldFire
-  props C17
+  props C17 C04 C12
   held gw.mu
   ensures true
 
 func (*GlobalWindow).buildResult
-  props C17
+  props C17 C04 C12
   held gw.mu
   ensures result-is-a-new-row: fresh(result)
 
 extern (*GlobalWindow).deliver
-  props C17
+  props C17 C04 C12
   modifies *
 
 func (*GlobalWindow).processRow
-  props C17
+  props C17 C04 C12
   acquires gw.mu
   modifies *
   observe fire := shouldFire
@@ -659,7 +659,7 @@ func (*GlobalWindow).processRow
   loop 1 invariant forallv(k, "", k != key ==> (dom(gw.groups, k) <==> old(dom(gw.groups, k))) && gw.groups[k] == old(gw.groups[k]))
 
 func (*GlobalWindow).reapIdleKeys
-  props C17
+  props C17 C04 C12
   acquires gw.mu
   modifies mapof(gw.groups)
   ensures only-idle-groups-reaped: forallv(k, "", old(dom(gw.groups, k)) && !dom(gw.groups, k) ==> now - old(gw.groups[k]).lastActive > gw.countStateTTL)
@@ -668,37 +668,37 @@ func (*GlobalWindow).reapIdleKeys
   loop 1 invariant forallv(k, "", dom(gw.groups, k) ==> old(dom(gw.groups, k)) && gw.groups[k] == old(gw.groups[k]))
 
 func (*GlobalWindow).Reset
-  props C17
+  props C17 C04 C12
   acquires gw.mu
   modifies gw.groups, gw.sentCount, gw.droppedCount
   ensures every-group-restarts-from-empty: forallv(k, "", !dom(gw.groups, k))
 
 func (*GlobalWindow).SetCallback
-  props C17
+  props C17 C04 C12
   acquires gw.mu
   modifies gw.callback
   ensures gw.callback == callback
 
 func (*GlobalWindow).Stop
-  props C17
+  props C17 C04 C12
   modifies *
   ensures true
 
 func (*GlobalWindow).Add
-  props C17
+  props C17 C04 C12
   modifies *
   ensures true
 
 extern (*GlobalWindow).buildOutputSpecs
-  props C17
+  props C17 C04 C12
   modifies gw.outputSpecs
 
 extern (*GlobalWindow).buildTrigger
-  props C17
+  props C17 C04 C12
   modifies gw.triggerSpecs, gw.rewrittenPredicate, gw.triggerCond
 
 func NewGlobalWindow
-  props C17
+  props C17 C04 C12
   modifies *
   ensures inv: result1 == nil ==> result0 != nil && gwInv(result0)
 @*/
@@ -719,11 +719,11 @@ pred ssInv(sw) := sw.timeout > 0 && sw.sessionMap != nil && sw.triggeredSessions
   && forallv(a, "", forallv(b, "", dom(sw.sessionMap, a) && dom(sw.triggeredSessions, b) ==> sw.sessionMap[a] != sw.triggeredSessions[b].session))
 
 extern extractSessionCompositeKey
-  props C10
+  props C10 C02 C04
   option pure
 
 func (*SessionWindow).handleLateData
-  props C10 C02
+  props C10 C02 C04
   held sw.mu
   requires ssInv(sw)
   modifies *
@@ -735,7 +735,7 @@ func (*SessionWindow).handleLateData
   loop 1 invariant forallv(k, "", dom(sw.sessionMap, k) <==> old(dom(sw.sessionMap, k))) && forallv(k, "", dom(sw.sessionMap, k) ==> sw.sessionMap[k] == old(sw.sessionMap[k]))
 
 func (*SessionWindow).triggerLateUpdateLocked
-  props C10 C02
+  props C10 C02 C04
   held sw.mu
   requires ssInv(sw)
   modifies *
@@ -743,7 +743,7 @@ func (*SessionWindow).triggerLateUpdateLocked
   ensures inv: ssInv(sw)
 
 func (*SessionWindow).closeExpiredSessions
-  props C10 C02
+  props C10 C02 C04
   held sw.mu
   requires ssInv(sw)
   modifies mapof(sw.triggeredSessions)
@@ -754,46 +754,46 @@ func (*SessionWindow).closeExpiredSessions
   loop 1 invariant forallv(k, "", dom(sw.triggeredSessions, k) ==> sw.triggeredSessions[k] == old(sw.triggeredSessions[k]))
 
 func (*SessionWindow).checkAndTriggerSessions
-  props C10 C02
+  props C10 C02 C04
   acquires sw.mu
   modifies *
   observe batch := collectExpiredSessions
   before sendResults sends-exactly-what-expired-under-the-lock: resultsToSend == $batch
 
 func (*SessionWindow).checkExpiredSessions
-  props C10
+  props C10 C02 C04
   acquires sw.mu
   modifies *
   observe batch := collectExpiredSessions
   before sendResults sends-exactly-what-expired-under-the-lock: resultsToSend == $batch
 
 func (*SessionWindow).SetCallback
-  props C10
+  props C10 C02 C04
   acquires sw.mu
   modifies sw.callback
   ensures sw.callback == callback
 
 func (*SessionWindow).Reset
-  props C10 C02
+  props C10 C02 C04
   modifies *
 
 func (*SessionWindow).Trigger
-  props C10
+  props C10 C02 C04
   acquires sw.mu
   modifies *
 
 func (*SessionWindow).Stop
-  props C10
+  props C10 C02 C04
   modifies *
 
 func NewSessionWindow
-  props C10 C02
+  props C10 C02 C04
   modifies *
   ensures inv: result1 == nil ==> result0 != nil && ssInv(result0) && !result0.initialized
   ensures no-open-session: result1 == nil ==> forallv(k, "", !dom(result0.sessionMap, k))
 
 func (*SessionWindow).Add
-  props C10 C02
+  props C10 C02 C04
   acquires sw.mu
   modifies *
   owns TimeSlot.End TimeSlot.Start
@@ -808,7 +808,7 @@ func (*SessionWindow).Add
   ensures [C10] gap-above-the-timeout-starts-a-new-session: sw.config.TimeCharacteristic == "EventTime" && second(extractTimestamp(data, sw.config.TsProp, sw.config.TimeUnit)) && !$late && old(dom(sw.sessionMap, extractSessionCompositeKey(data, sw.config.GroupByKeys))) && extractTimestamp(data, sw.config.TsProp, sw.config.TimeUnit) > old(*sw.sessionMap[extractSessionCompositeKey(data, sw.config.GroupByKeys)].slot.End) ==> sw.sessionMap[extractSessionCompositeKey(data, sw.config.GroupByKeys)] != old(sw.sessionMap[extractSessionCompositeKey(data, sw.config.GroupByKeys)])
 
 func (*SessionWindow).collectExpiredSessions
-  props C10 C02
+  props C10 C02 C04
   held sw.mu
   requires ssInv(sw)
   modifies mapof(sw.sessionMap), mapof(sw.triggeredSessions)
